@@ -108,6 +108,7 @@ pub struct Rep {
     case_viols: u32,
     case_events: u32,
     case_evals0: u64,
+    case_event_cap: u32,
     case_viols_by_op: BTreeMap<String, u32>,
     pub case_tags: Vec<String>,
     cases_run: u64,
@@ -140,6 +141,7 @@ impl Rep {
             case_viols: 0,
             case_events: 0,
             case_evals0: 0,
+            case_event_cap: EVENTS_PER_CASE,
             case_viols_by_op: BTreeMap::new(),
             case_tags: Vec::new(),
             cases_run: 0,
@@ -172,6 +174,7 @@ impl Rep {
         self.case_viols = 0;
         self.case_events = 0;
         self.case_evals0 = self.evals;
+        self.case_event_cap = EVENTS_PER_CASE;
         self.case_viols_by_op.clear();
         self.case_tags.clear();
         self.cases_run += 1;
@@ -266,7 +269,13 @@ impl Rep {
 
     #[inline]
     pub fn want_event(&self) -> bool {
-        self.case_events < EVENTS_PER_CASE && self.cases_run <= self.event_budget_cases
+        self.case_events < self.case_event_cap && (self.cases_run <= self.event_budget_cases || self.case_event_cap > EVENTS_PER_CASE)
+    }
+
+    /// record up to `n` events of the running case (used for small inputs that are dumped in full,
+    /// so that run/logcheck.py can re-check them with its own model)
+    pub fn allow_events(&mut self, n: u32) {
+        self.case_event_cap = n;
     }
 
     pub fn event(&mut self, op: &str, args: String, got: String) {
